@@ -10,7 +10,7 @@ package keeper
 //@ frame-only
 
 //@ func (Keeper).GetMTPsForAddressWithPagination
-//@ modifies module:amm
+//@ modifies module:amm, *pagination
 //@ frame-only
 
 //@ func (Keeper).HandleOpenEstimation
@@ -20,7 +20,7 @@ package keeper
 // Opening a position is not looked into from the callers in other modules: any state change is
 // allowed for (weakest contract, nothing assumed).
 //@ func (Keeper).Open
-//@ modifies world
+//@ modifies world, *msg
 //@ havoc-only
 
 // A position's identity never changes once it is shared: owner, id (assigned once by SetMTP),
